@@ -114,19 +114,24 @@ func TestTimeoutWhenAlreadyCancelled(t *testing.T) {
 	rapid.Check(t, func(t *rapid.T) {
 		type scen struct {
 			LimitUs  int    `json:"limit_us"`
-			CancelAt string `json:"cancel_at"` // before | quarter | half
+			CancelAt string `json:"cancel_at"` // before | quarter | half | deadline-quarter (the context carries a deadline at a quarter of the limit)
+			Inner    string `json:"inner"`     // none | retry (a retry policy, handling nothing, inside the Timeout)
 			Dur      string `json:"dur"`       // half | double (of the limit; the function ignores the cancellation)
 			Async    bool   `json:"async"`
 			Outer    string `json:"outer"` // none | fallback (handles nothing)
 		}
-		sc := scen{LimitUs: rapid.SampledFrom([]int{2000, 5000}).Draw(t, "limitUs"), CancelAt: rapid.SampledFrom([]string{"before", "quarter", "half"}).Draw(t, "cancelAt"),
-			Dur: rapid.SampledFrom([]string{"half", "double", "double"}).Draw(t, "dur"), Async: rapid.Bool().Draw(t, "async"), Outer: rapid.SampledFrom([]string{"none", "fallback"}).Draw(t, "outer")}
+		sc := scen{LimitUs: rapid.SampledFrom([]int{2000, 5000}).Draw(t, "limitUs"), CancelAt: rapid.SampledFrom([]string{"before", "quarter", "half", "deadline-quarter"}).Draw(t, "cancelAt"),
+			Inner: rapid.SampledFrom([]string{"none", "retry"}).Draw(t, "inner"),
+			Dur:   rapid.SampledFrom([]string{"half", "double", "double"}).Draw(t, "dur"), Async: rapid.Bool().Draw(t, "async"), Outer: rapid.SampledFrom([]string{"none", "fallback"}).Draw(t, "outer")}
 		limit := time.Duration(sc.LimitUs) * time.Microsecond
 		var listener atomic.Int32
 		to := timeout.Builder[int](limit).OnTimeoutExceeded(func(failsafe.ExecutionDoneEvent[int]) { listener.Add(1) }).Build()
 		pols := []failsafe.Policy[int]{to}
 		if sc.Outer == "fallback" {
 			pols = []failsafe.Policy[int]{fallback.BuilderWithResult[int](-1).HandleErrors(errors.New("never")).Build(), to}
+		}
+		if sc.Inner == "retry" {
+			pols = append(pols, retrypolicy.Builder[int]().HandleErrors(errors.New("never")).Build())
 		}
 		ctx, cancel := context.WithCancel(context.Background())
 		defer cancel()
@@ -135,6 +140,10 @@ func TestTimeoutWhenAlreadyCancelled(t *testing.T) {
 			cancel()
 		case "quarter":
 			time.AfterFunc(limit/4, cancel)
+		case "deadline-quarter":
+			var c2 context.CancelFunc
+			ctx, c2 = context.WithTimeout(ctx, limit/4)
+			defer c2()
 		default:
 			time.AfterFunc(limit/2, cancel)
 		}
@@ -150,10 +159,19 @@ func TestTimeoutWhenAlreadyCancelled(t *testing.T) {
 		t0 := time.Now()
 		var v int
 		var err error
-		if sc.Async {
-			v, err = ex.GetWithExecutionAsync(fn).Get()
-		} else {
-			v, err = ex.GetWithExecution(fn)
+		returned := make(chan struct{})
+		go func() {
+			defer close(returned)
+			if sc.Async {
+				v, err = ex.GetWithExecutionAsync(fn).Get()
+			} else {
+				v, err = ex.GetWithExecution(fn)
+			}
+		}()
+		select {
+		case <-returned:
+		case <-harness.After(30 * time.Second):
+			harness.Violation(t, prop, test, "never-returns", sc, "%+v: the call had not returned 30s after a limit of %v; the function returns by itself after %v", sc, limit, d)
 		}
 		elapsed := time.Since(t0)
 		arm := "inner"
@@ -170,7 +188,9 @@ func TestTimeoutWhenAlreadyCancelled(t *testing.T) {
 			if got := listener.Load(); got != 1 {
 				harness.Violation(t, prop, test, "listener-count", sc, "%+v: ErrExceeded was returned but OnTimeoutExceeded was called %d times", sc, got)
 			}
-		case v == 7 && err == errIn:
+		case (v == 7 && err == errIn) || (sc.Inner == "retry" && (errors.Is(err, context.Canceled) || errors.Is(err, context.DeadlineExceeded))):
+			// (a retry policy inside the Timeout answers a cancelled execution with the context's error: that is the inner
+			// result then)
 			time.Sleep(2*limit + time.Millisecond) // a timer that is still armed would fire by now
 			if got := listener.Load(); got != 0 {
 				harness.Violation(t, prop, test, "listener-count", sc, "%+v: the inner result was returned but OnTimeoutExceeded was called %d times", sc, got)
